@@ -9,6 +9,9 @@ history (a plain list of operations) interpreted by `Harness`:
   ["dribble", from_side]                       hand everything over one byte at a time
   ["fire", side, j, outcome]                   resolve the j-th pending responder Deferred on `side`
   ["lose", side, kind]                         connectionLost(ConnectionDone|ConnectionLost) on one side
+  ["resume", side]                             resumeProducing() on a side whose protocol was paused by a
+                                               call with chain "pause" (in its result callback) or "rpause"
+                                               (in its responder)
 
 plus `loss_at = [n, who]`: connection loss injected when exactly n bytes (both
 directions together) have been delivered.  `enum = True` runs the history once
@@ -30,7 +33,7 @@ META = dict(
     property="C31",
     level="fault_enumeration",
     technique="op-list histories over two real AMP peers on a harness-owned wire; timeline oracle computed from the decoded wire; connection loss enumerated at every byte boundary of fixed and generated histories",
-    level_text="Generated histories (calls of 5 command kinds from both peers, one of them a ProtocolSwitchCommand that completes, fails or stays pending while other calls are outstanding; responders that answer at once, later in any order, never, with declared, fatal-declared or undeclared errors, and with exceptions that are (direct or indirect) SUBCLASSES of a declared / fatal-declared error, which must reach the caller as that declared error; re-entrant follow-up calls from result callbacks; chunked / byte-wise delivery; loss of either side at any op) are run against two real amp.AMP instances. For fixed scenario histories and for a sample of generated ones the loss is additionally injected at EVERY byte boundary of the whole exchange, for victim A, B and both. For each call the oracle derives from the recorded wire and delivery timeline the exact step and value it must fire with: own answer / own declared error / UnknownRemoteError / UnhandledCommand, else the loss reason object of its side at the loss step; calls after loss must have fired before callRemote returns. Responder invocations are checked the same way (exactly once, at the step the command box became complete).",
+    level_text="Generated histories (calls of 5 command kinds from both peers, one of them a ProtocolSwitchCommand that completes, fails or stays pending while other calls are outstanding; responders that answer at once, later in any order, never, with declared, fatal-declared or undeclared errors, and with exceptions that are (direct or indirect) SUBCLASSES of a declared / fatal-declared error, which must reach the caller as that declared error; re-entrant follow-up calls from result callbacks; application back-pressure (pauseProducing on the AMP protocol from inside a responder or a result callback while more boxes of the same chunk are buffered, resumeProducing later with or without further bytes); chunked / byte-wise delivery; loss of either side at any op) are run against two real amp.AMP instances. For fixed scenario histories and for a sample of generated ones the loss is additionally injected at EVERY byte boundary of the whole exchange, for victim A, B and both. For each call the oracle derives from the recorded wire and delivery timeline the exact step and value it must fire with: own answer / own declared error / UnknownRemoteError / UnhandledCommand, else the loss reason object of its side at the loss step; calls after loss must have fired before callRemote returns. Responder invocations are checked the same way (exactly once, at the step the command box became complete).",
     level_note="Trusted: the in-memory transport (modelled on abstract.FileDescriptor: loseConnection stops reading, flushes, then both sides get ConnectionDone), the 25-line reference box decoder, the test-double responders. Protocol switching: only the fate of callRemote Deferreds is asserted (a side that is switching / has switched cannot send boxes, so calls it leaves unanswered must fail with the loss reason); callRemote on a locked side (documented to raise ProtocolSwitched) is not exercised, nor is the inner protocol's data. Not covered: TLS, responders returning unserialisable values, real sockets. Loss is enumerated per byte boundary of delivered data, not inside a single dataReceived call.",
     design_ref="§5 C31",
     rule="case = op list (+ loss point). non-trivial = at some step >=3 calls of one history were in flight, the answers reached a caller in an order different from the order of its calls, and a connection loss failed at least one pending call; distinct by (ops, loss_at).",
@@ -220,6 +223,16 @@ class _Transport:
     def abortConnection(self):
         self.loseConnection()
 
+    # the AMP protocol is an IPushProducer: pausing it pauses the transport
+    def pauseProducing(self):
+        pass
+
+    def resumeProducing(self):
+        pass
+
+    def stopProducing(self):
+        pass
+
     def getPeer(self):
         return "peer-of-" + self.side
 
@@ -232,6 +245,10 @@ class _Side:
         self.out = bytearray()       # everything this side wrote
         self.sent = 0                # bytes of `out` handed to the peer
         self.timeline = []           # (step, sent) after each chunk
+        # what the PEER has processed of `out`: (step, sent, pause trigger) after
+        # every pass of the peer's parser (a delivery or a resumeProducing)
+        self.proc_events = []
+        self.paused = False          # this side's protocol was paused by its application
         self.lost = False
         self.lost_t = None
         self.lost_exc = None
@@ -271,6 +288,11 @@ class Harness:
         self.max_inflight = 0
         self.cb_errors = []
         self.ev = 0                  # finer clock than `t`: orders events inside one step
+        self.pass_side = None        # side whose parser is running right now
+        self.pass_trigger = None     # ("cmd"|"ans", call id) of the box whose processing paused it
+        self.used_pause = False
+        self.used_switch = False
+        self.resume_steps = set()
         self.skipped_locked = 0
         for name in "AB":
             p = self.k["Peer"](self, name)
@@ -311,6 +333,8 @@ class Harness:
             call = self.by_id.get(id)
             if call is None or call.cmd != cmd or call.deferred is not None or call.outcome is not None:
                 return {}                   # the oracle reports the stray / repeated invocation
+            if call.chain == "rpause":
+                self.do_pause(side, "cmd", call)
             if call.beh in ("later", "never"):
                 from twisted.internet.defer import Deferred
                 call.deferred = Deferred()
@@ -358,6 +382,13 @@ class Harness:
             # this property, so such calls are simply not made.
             self.skipped_locked += 1
             return
+        if cmd == "switch":
+            if self.used_pause:
+                # pausing and protocol switching are kept apart: data buffered
+                # by a paused parser would be handed to the switched-to protocol
+                self.skipped_locked += 1
+                return
+            self.used_switch = True
         call = Call(id=len(self.calls) + 1, side=side, cmd=cmd, beh=beh, pad=pad, chain=chain,
                     t=self.t, after_loss=s.lost, fired=[], is_chain=is_chain)
         self.calls.append(call)
@@ -392,8 +423,41 @@ class Harness:
         inflight = sum(1 for c in self.calls if c.cmd != "quiet" and not c.fired)
         self.max_inflight = max(self.max_inflight, inflight)
 
+    def do_pause(self, side, kind, call):
+        """Application back-pressure: pauseProducing() on this side's AMP
+        protocol from inside the processing of a box (a responder invocation
+        or a result callback)."""
+        s = self.sides[side]
+        if s.lost or s.paused or self.used_switch or self.pass_side != side:
+            return
+        self.used_pause = True
+        s.paused = True
+        s.proto.pauseProducing()
+        if self.pass_trigger is None:
+            self.pass_trigger = (kind, call.id)
+
+    def do_resume(self, side):
+        s = self.sides[side]
+        if not s.paused or s.lost:
+            return
+        sender = self.sides[OTHER[side]]
+        self.step()
+        self.resume_steps.add(self.t)
+        s.paused = False
+        self.pass_side, self.pass_trigger = side, None
+        s.proto.resumeProducing()
+        sender.proc_events.append((self.t, sender.sent, self.pass_trigger))
+        self.pass_side = None
+        self.settle()
+
     def follow(self, call):
-        if call.chain and len(call.fired) == 1:
+        if call.chain == "pause" and len(call.fired) == 1:
+            try:
+                self.do_pause(call.side, "ans", call)
+            except Exception as e:  # re-raised in run()
+                self.cb_errors.append(e)
+            return
+        if call.chain == "echo" and len(call.fired) == 1:
             # An exception here would be swallowed by the Deferred we are
             # running in; keep it and re-raise it at the end of the history.
             try:
@@ -410,13 +474,16 @@ class Harness:
         s.sent += len(data)
         self.total_delivered += len(data)
         s.timeline.append((self.t, s.sent))
+        self.pass_side, self.pass_trigger = OTHER[frm], None
         r.proto.dataReceived(data)
+        s.proc_events.append((self.t, s.sent, self.pass_trigger))
+        self.pass_side = None
         self.settle()
 
     def deliverable(self, frm):
         s = self.sides[frm]
         r = self.sides[OTHER[frm]]
-        if r.lost or r.closing:
+        if r.lost or r.closing or r.paused:
             return 0
         return len(s.out) - s.sent
 
@@ -512,6 +579,8 @@ class Harness:
                 self.do_fire(op[1], op[2], op[3])
             elif kind == "lose":
                 self.do_lose(op[1], op[2])
+            elif kind == "resume":
+                self.do_resume(op[1])
             else:
                 raise ValueError(op)
         self.maybe_inject()
@@ -567,6 +636,28 @@ def judge(ctx, case, h):
         except ValueError as e:
             V("wire-not-decodable", case, f"side {name}: {e}")
     answers_seen = {"A": [], "B": []}        # order in which answers reached each caller
+    # Where each call's command box and answer box end on the wire, then, per
+    # direction, how far the receiving parser had got after each of its passes:
+    # a pass that was paused from inside the processing of a box stops there.
+    cmd_end, ans_end = {}, {}
+    for X in "AB":
+        boxes = [(b, e) for b, e in streams[X] if b"_command" in b]
+        live_ = [c for c in h.calls if c.side == X and not c.after_loss]
+        for c, (b, e) in zip(live_, boxes):
+            cmd_end[c.id] = e
+            tg = b.get(b"_ask")
+            if tg is not None:
+                for b2, e2 in streams[OTHER[X]]:
+                    if b2.get(b"_answer") == tg or b2.get(b"_error") == tg:
+                        ans_end.setdefault(c.id, e2)
+    proc = {}
+    for X in "AB":
+        proc[X] = []
+        for t, sent, trig in h.sides[X].proc_events:
+            upto = sent
+            if trig is not None:
+                upto = (cmd_end if trig[0] == "cmd" else ans_end).get(trig[1], sent)
+            proc[X].append((t, upto))
     for X in "AB":
         Y = OTHER[X]
         sx, sy = h.sides[X], h.sides[Y]
@@ -602,7 +693,7 @@ def judge(ctx, case, h):
                     V("ask-tag-reused", case, f"calls {tags[tag]} and {c.id} from {X} both use _ask={tag!r}")
                 tags[tag] = c.id
             # responder
-            ta = first_reaching(sx.timeline, end)
+            ta = first_reaching(proc[X], end)
             inv = [i for i in h.invocations if i[3] == c.id]
             want_inv = [] if (ta is None or c.cmd == "unknown") else [(ta, Y, c.cmd, c.id, box.get(b"pad"))]
             if inv != want_inv:
@@ -646,7 +737,7 @@ def judge(ctx, case, h):
                     good = abox.get(b"_error_code") == ERR_CODES[(c.cmd, DECLARED[outcome][0])]
                 if not good:
                     V("answer-box-content", case, f"call {c.id} outcome {outcome}: box {abox}")
-                tb = first_reaching(sy.timeline, aend)
+                tb = first_reaching(proc[Y], aend)
             # expected firing
             if tb is not None:
                 if outcome == "ok":
@@ -746,6 +837,14 @@ def one_run(ctx, case, count=True):
             ctx.count("calls outstanding across a completed switch, failed by the loss", len(stranded))
     if h.skipped_locked:
         ctx.count("calls not made because the side was locked by a switch", h.skipped_locked)
+    if h.used_pause:
+        ctx.count("runs where the application paused an AMP protocol from inside box processing")
+        late = [c for c in h.calls if c.fired and c.fired[0][0] in h.resume_steps and c.fired[0][1] is not None
+                and not (c.fired[0][1] == "err" and c.fired[0][2].value in (h.sides["A"].lost_exc, h.sides["B"].lost_exc))]
+        inv_late = [i for i in h.invocations if i[0] in h.resume_steps]
+        if late or inv_late:
+            ctx.count("runs where buffered boxes were processed by resumeProducing alone")
+            ctx.count("answers / commands processed by resumeProducing alone", len(late) + len(inv_late))
     nsub = sum(1 for c in live if c.outcome in ("subA", "subB", "subFatal"))
     if nsub:
         ctx.count("runs with a responder raising a subclass of a declared error")
@@ -788,7 +887,7 @@ BEHS = st.sampled_from(["ok", "ok", "later", "later", "later", "never", "declA",
                         "subA", "subB", "subFatal"])
 OUTCOMES = st.sampled_from(["ok", "ok", "ok", "declA", "declB", "fatal", "boom", "subA", "subB", "subFatal"])
 PADS = st.one_of(st.integers(0, 12), st.sampled_from([0, 1, 40, 300]))
-CHAIN = st.sampled_from([None, None, None, "echo"])
+CHAIN = st.sampled_from([None, None, None, None, None, None, "echo", "echo", "pause", "rpause"])
 
 call_op = st.tuples(st.just("call"), SIDES, CMDS, BEHS, PADS, CHAIN).map(list)
 deliver_op = st.one_of(
@@ -798,6 +897,7 @@ deliver_op = st.one_of(
 )
 fire_op = st.tuples(st.just("fire"), SIDES, st.integers(0, 5), OUTCOMES).map(list)
 lose_op = st.tuples(st.just("lose"), SIDES, st.sampled_from(["done", "lost"])).map(list)
+resume_op = st.tuples(st.just("resume"), SIDES).map(list)
 
 
 @st.composite
@@ -842,12 +942,41 @@ def switch_scene(draw):
     return ops
 
 
+@st.composite
+def pause_scene(draw):
+    """Several commands / answers arrive in one chunk; the application pauses
+    the receiving AMP protocol while one of them is being processed (in the
+    responder, or in the result callback) and resumes it later."""
+    side = draw(SIDES)
+    n = draw(st.integers(2, 4))
+    where = draw(st.integers(0, n - 1))
+    how = draw(st.sampled_from(["pause", "pause", "rpause"]))
+    ops = []
+    for i in range(n):
+        ops.append(["call", side, draw(st.sampled_from(["echo", "other", "echo", "quiet", "unknown"])),
+                    draw(st.sampled_from(["ok", "ok", "ok", "declA", "later"])), draw(PADS),
+                    how if i == where else draw(st.sampled_from([None, None, "echo"]))])
+    if draw(st.integers(0, 3)) == 0:
+        ops.append(["call", OTHER[side], "echo", "ok", draw(PADS), draw(st.sampled_from([None, "rpause", "pause"]))])
+    ops.append(draw(st.sampled_from([["deliver", side, 0], ["deliver", side, 0], ["dribble", side]])))
+    tail = [["resume", OTHER[side]], ["deliver", side, 0], ["deliver", OTHER[side], 0], ["resume", side],
+            ["deliver", OTHER[side], 0], ["resume", side], ["deliver", side, 0]]
+    for o in tail:
+        if draw(st.integers(0, 5)) > 0:
+            ops.append(o)
+    if draw(st.integers(0, 3)) == 0:
+        ops.append(draw(st.one_of(lose_op, fire_op, call_op)))
+    return ops
+
+
 fragment = st.one_of(
     call_op.map(lambda o: [o]), call_op.map(lambda o: [o]),
     deliver_op.map(lambda o: [o]), deliver_op.map(lambda o: [o]),
     fire_op.map(lambda o: [o]),
     burst(), burst(),
     switch_scene(),
+    pause_scene(), pause_scene(),
+    resume_op.map(lambda o: [o]),
     lose_op.map(lambda o: [o]),
 )
 
@@ -866,7 +995,8 @@ def history(draw, max_frag=8, with_loss=True):
 @st.composite
 def enum_history(draw):
     frags = draw(st.lists(st.one_of(burst(), call_op.map(lambda o: [o]), deliver_op.map(lambda o: [o]),
-                                    fire_op.map(lambda o: [o])), min_size=1, max_size=3))
+                                    fire_op.map(lambda o: [o]), pause_scene(), resume_op.map(lambda o: [o])),
+                          min_size=1, max_size=3))
     ops = [o for f in frags for o in f]
     ops = [(o[:4] + [min(o[4], 12), o[5]]) if o[0] == "call" else o for o in ops]
     return dict(ops=ops, enum=True)
@@ -910,6 +1040,15 @@ FIXED.append(
     [_c("A", "echo", "later", 1), _c("B", "other", "later"), _c("A", "other", "ok"), ["deliver", "A", 0], ["deliver", "B", 0],
      _c("A", "switch", "later"), ["deliver", "A", 0], ["fire", "B", 1, "ok"], ["deliver", "B", 0],
      ["fire", "B", 0, "ok"], ["fire", "A", 0, "ok"], ["deliver", "B", 0], ["deliver", "A", 0]])
+
+
+FIXED.append(
+    # back-pressure: the caller pauses its protocol in the callback of the first
+    # of three answers that arrive in one chunk, the responder side pauses in a
+    # responder; both are resumed with no further bytes arriving
+    [_c("A", "echo", "ok", 0, "pause"), _c("A", "other", "ok", 2), _c("A", "echo", "declA"), _c("B", "echo", "ok", 0, "rpause"),
+     _c("B", "other", "ok"), ["deliver", "A", 0], ["deliver", "B", 0], ["resume", "A"], ["resume", "B"],
+     ["deliver", "A", 0], ["deliver", "B", 0], ["resume", "A"]])
 
 
 def _enum_fixed(ctx):
